@@ -17,6 +17,9 @@ def run(ctx, sess):
     ctx.rule('C01.a', 'the cached level-1 index/summary is reused only when its chunk_meta matches the requested signal id and the sample lies in its range')
     ctx.rule('C01.c', '"whatever reads were issued before": sample bytes in the core read buffer are used only after a checked read or reconstruction of that block succeeded on the same path (no block is served from what an earlier call left in the buffer)')
     ctx.rule('C01.d', '"whatever the first sample id was": the first block of a signal, which carries the sample-id offset, is always stored (omission masked by "a data chunk already exists")')
+    ctx.rule('C01.e', '"whatever the first sample id was": the sample_id_offset is applied exactly once to each id and no compare mixes an api-relative id with a file id, in every reader function that mentions the offset')
+    ctx.rule('C01.f', 'seek descent: in the index descent of jls_core_fsr_seek / jls_core_ts_seek no compound-updated local (other than the level counter) carries a value from one level into the next; the step size of a level is computed from the definition and that level alone')
+    ctx.rule('C01.g', '"the reader reports exactly the number of samples": at close every FSR summary level whose index holds entries is written, unless its single entry is the first chunk of the level below and the level has no chunk on disk (then that chunk is reachable through its own track head)')
     ctx.rule('C01.b', 'grow-to-fit: buffer growth strictly increasing and overflow-free; the grow request covers the on-disk payload size for every residue')
     f = P.fn('jls_core_rd_fsr_level1')
     ctx.saw(f)
@@ -79,3 +82,66 @@ def run(ctx, sess):
     _freshness(ctx, P, exceptions('C04'), rule='C01.c')
     from .c15 import first_block_stored
     first_block_stored(ctx, P, 'C01.d')
+    from .frames import frames_rule
+    frames_rule(ctx, P, 'C01.e')
+    descent_purity(ctx, P, 'C01.f')
+    from .c11 import pending_index_rule
+    pending_index_rule(ctx, P, 'C01.g', ('src/wr_fsr.c',))
+
+
+def descent_purity(ctx, P, rule, names=('jls_core_fsr_seek', 'jls_core_ts_seek')):
+    """seek descent: what one level computes does not leak into the next level"""
+    from ..graph import loops
+    from .. import df
+    n = 0
+    for name in names:
+        fn = P.functions.get(name)
+        if fn is None:
+            continue
+        ctx.saw(fn, 1)
+        lp = loops(fn)
+        # descent loops: outermost loops that read a chunk
+        reads = [c for c in fn.calls(('jls_core_rd_chunk', 'jls_raw_rd', 'jls_raw_rd_header'))]
+        cand = [(h, body) for h, body in lp.items() if any(c.block.id in body for c in reads)]
+        cand = [(h, body) for h, body in cand if not any(h in b2 and h2 != h for h2, b2 in cand)]
+        for h, body in cand:
+            n += 1
+            hb = fn.blocks[h]
+            counters = set()
+            if hb.cond is not None:
+                counters = {x.get('name') for x in walk(hb.cond) if x.get('op') == 'ref' and x.get('rk') == 'local'}
+            carried = []
+            for ev in [e_ for bid in body for e_ in fn.blocks[bid].events if e_.k == 'store']:
+                lhs, rhs, o = ev.store_parts()
+                l0 = strip_casts(lhs)
+                if l0.get('op') != 'ref' or l0.get('rk') != 'local' or o == '=':
+                    continue
+                v = l0['name']
+                if v in counters:
+                    continue
+                # does this compound update reach the loop header and get used in the next iteration before a plain definition?
+                defs, _ = df.reaching_defs(fn, v, hb, 0)
+                if ev not in defs:
+                    continue
+
+                def on_event(e2, facts, v=v):
+                    if e2.block.id not in body:
+                        return 'stop'
+                    uses = e2.e is not None and any(x.get('op') == 'ref' and x.get('name') == v and x.get('rk') == 'local' for x in walk(e2.e))
+                    if e2.k in ('store', 'decl') and df.stores_to_local(e2, v):
+                        lhs2, rhs2, o2 = e2.store_parts()
+                        if o2 == '=' and not (rhs2 is not None and any(x.get('op') == 'ref' and x.get('name') == v for x in walk(rhs2))):
+                            return 'stop'
+                        return 'target'
+                    return 'target' if uses else None
+                w = find_path(fn, (hb, 0) if len(hb.succs) else 'entry', on_event, refine=False,
+                              on_block_end=lambda b, facts, v=v: 'target' if (b.id in body and b.cond is not None and any(x.get('op') == 'ref' and x.get('name') == v for x in walk(b.cond))) else None) \
+                    if hb.succs else None
+                if w is not None:
+                    carried.append((v, ev, w))
+            ctx.ob(rule, not carried, fn.name, 'descent loop at line %d keeps no accumulator across levels' % hb.line, '%s:%d' % (fn.file, hb.line),
+                   'every compound-updated local is re-initialised inside the iteration (level counter: %s)' % ', '.join(sorted(counters)) if not carried else
+                   '%s is updated with %s inside the loop and its value survives into the next level (defined outside the loop, never reset): the step computed for a level depends on the levels visited before' % (
+                       carried[0][0], show(carried[0][1].e)[:50]),
+                   carried[0][2].render() if carried else None)
+    ctx.floor('seek descent loops', n, 1)
